@@ -82,11 +82,11 @@ pub fn cfg_set(name: &str, mk: Kind, ci: bool, thorough: bool) -> Vec<Cfg> {
     v
 }
 
-struct Ctx<'a> {
-    rep: &'a Report,
-    pats: &'a [Vec<u8>],
-    kind: Kind,
-    ci: bool,
+pub struct Ctx<'a> {
+    pub rep: &'a Report,
+    pub pats: &'a [Vec<u8>],
+    pub kind: Kind,
+    pub ci: bool,
 }
 
 fn argv_for(ctx: &Ctx, cfg: &Cfg, aspect: &str, hay: &[u8], s: usize, e: usize, anch: bool) -> Vec<String> {
